@@ -269,12 +269,29 @@ def with_provenance(make, span, prov, names=(), prepare=None):
     return make(span)
 
 
+_SWALLOW = {}
+
+
+def swallowing(cls):
+    """A user subclass sitting in FRONT of every mixin whose pre-solution hook override does not forward the optional
+    `iteration` keyword to `super()` (the keyword is documented as optional)."""
+    if cls not in _SWALLOW:
+        class Swallowing(cls):
+            def solve_t_before(self, t, *a, **kw):
+                kw.pop('iteration', None)
+                super().solve_t_before(t, *a, **kw)
+        _SWALLOW[cls] = Swallowing
+    return _SWALLOW[cls]
+
+
 def build_instance(case, mixins=(), span=None, exo=('X',)):
     extra = tuple(c for c in mix_classes(case.get('mix')) if c not in mixins)
     # `check_edit`: the class declares every endogenous variable as a check variable and the INSTANCE's `check` list is
     # then edited down to the case's subset (what the solver must use is the instance's list)
     edit = bool(case.get('check_edit'))
     cls = scripted_class(case['nE'], 'ALL' if edit else case['check'], tuple(mixins) + extra, exo, case.get('names'))
+    if case.get('hook_style') == 'swallow':
+        cls = swallowing(cls)
     n = case['n']
     names = names_of(case)
 
